@@ -240,6 +240,13 @@ theorem hooks_once_lifo_before_status (head : Bool) (pre : List Op) (t : Op) (po
   · rw [h]; simp [init]
   · intro e he; have := tailOf_noHdr head _ e he; exact ⟨this.2, this.1⟩
 
+/-- (5'') while the registered functions run nothing has been reported as written yet: they run
+    in the state reached by the operations before the trigger, where `Status()` is 0 and
+    `Written()` is false ("the reported status is 0 until then") -/
+theorem hooks_run_unwritten (head : Bool) (pre : List Op) (hq : ∀ op ∈ pre, op.isTrigger = false) :
+    (run head pre).status = 0 ∧ (run head pre).written = false := by
+  rw [run_eq_runFrom, runFrom_fresh_quiet _ _ hq]; simp [init, W.written]
+
 /-- (5') with no trigger at all no function runs and nothing reaches the underlying writer -/
 theorem quiet_sends_nothing (head : Bool) (ops : List Op) (hq : ∀ op ∈ ops, op.isTrigger = false) :
     (run head ops).under = [] ∧ (run head ops).status = 0 ∧ (run head ops).size = 0 := by
